@@ -85,3 +85,26 @@ def mutated(field, cls):
         parts[field['pos']] = rep
         argv[field['idx']] = ','.join(parts)
     return argv
+
+
+def paired(field, cls, order):
+    """the mutated option together with a second, valid copy of the same option (after it: order 0, before it:
+    order 1) — options that may be given several times act on shared state (the same geo object, the same load
+    list), so a value that is harmless alone can meet code that evaluates it when the second option arrives"""
+    if cls == 'pos':
+        return None
+    argv = mutated(field, cls)
+    if argv is None:
+        return None
+    i = field['idx']
+    orig = field['argv'][i]
+    if orig.startswith('--'):
+        if orig.split('=')[0] in ('--frequency-steps', '--frequency-increment', '--radial-count', '--radial-radius', '--nf-power',
+                                  '--ff-power', '--ff-distance', '--theta', '--phi'):
+            return None                      # single-valued options: the last one wins, nothing shared
+        extra = [orig]
+    else:
+        extra = [field['argv'][i - 1], orig]
+        i = i - 1
+    n = len(extra) if not orig.startswith('--') else 1
+    return argv[:i + n] + extra + argv[i + n:] if order == 0 else argv[:i] + extra + argv[i:]
